@@ -403,6 +403,20 @@ pub fn c18(ctx: &Ctx) -> (CheckMeta, Outcome) {
                     let n = if big { vbyte_write_be(x, &mut buf) } else { vbyte_write_le(x, &mut buf) };
                     let mut gen: Vec<u8> = vec![];
                     let ng = if big { vbyte_write::<BE, _>(x, &mut gen) } else { vbyte_write::<LE, _>(x, &mut gen) };
+                    // a conforming sink that accepts at most 3 bytes per call, and a source that yields 1 byte per call
+                    let mut chunked = crate::wr::ChunkSink(Vec::new());
+                    let nc = if big { vbyte_write_be(x, &mut chunked) } else { vbyte_write_le(x, &mut chunked) };
+                    struct OneByte<'a>(&'a [u8], usize);
+                    impl<'a> std::io::Read for OneByte<'a> {
+                        fn read(&mut self, buf: &mut [u8]) -> std::io::Result<usize> {
+                            if buf.is_empty() || self.1 >= self.0.len() {
+                                return Ok(0);
+                            }
+                            buf[0] = self.0[self.1];
+                            self.1 += 1;
+                            Ok(1)
+                        }
+                    }
                     let name = if big { "be" } else { "le" };
                     let mut fail: Option<String> = None;
                     if buf != want {
@@ -411,6 +425,14 @@ pub fn c18(ctx: &Ctx) -> (CheckMeta, Outcome) {
                         fail = Some(format!("length of {}: write returned {:?}, byte_len_vbyte {}, reference {}", x, n.ok(), byte_len_vbyte(x), want.len()));
                     } else if gen != want || ng.ok() != Some(want.len()) {
                         fail = Some(format!("generic vbyte_write::<{}> wrote {} for {}", name, crate::util::hex(&gen), x));
+                    } else if chunked.0 != want || nc.ok() != Some(want.len()) {
+                        fail = Some(format!("vbyte_write_{}({}) into a sink accepting 3 bytes per call wrote {} (expected {})", name, x, crate::util::hex(&chunked.0), crate::util::hex(&want)));
+                    } else if {
+                        let mut ob = OneByte(&want, 0);
+                        let r = if big { vbyte_read_be(&mut ob) } else { vbyte_read_le(&mut ob) };
+                        r.ok() != Some(x) || ob.1 != want.len()
+                    } {
+                        fail = Some(format!("vbyte_read_{} from a source yielding one byte per call misreads {}", name, crate::util::hex(&want)));
                     } else {
                         let mut cur = std::io::Cursor::new(&want);
                         let r = if big { vbyte_read_be(&mut cur) } else { vbyte_read_le(&mut cur) };
@@ -475,6 +497,27 @@ pub fn c18(ctx: &Ctx) -> (CheckMeta, Outcome) {
                             }
                             if x >= 128 {
                                 out.cov.nontrivial += 1;
+                            }
+                        }
+                    }
+                }
+                out
+            }));
+        }
+    }
+    // (2b) bit-stream codes whose last byte is the last byte of a strict stream
+    for e in End::BOTH {
+        for kind in crate::rd::KINDS {
+            let diag = ctx.diag.clone();
+            tasks.push(Box::new(move || {
+                let mut out = Outcome::new();
+                out.cov.configs.insert(format!("bitstream-tail/{}/{}", e.name(), kind));
+                let vals: Vec<u64> = (0..200).chain([16511, 16512, 2113663, 2113664, 1 << 32, u64::MAX - 1, u64::MAX]).collect();
+                for code in [Code::VByteBe, Code::VByteLe] {
+                    for &x in &vals {
+                        for backend in ["memstrict", "cursor"] {
+                            for extra in [0usize, 1] {
+                                crate::streams::check_tail_exact(e, kind, backend, code, x, extra, &diag, "C18", &mut out);
                             }
                         }
                     }
@@ -627,7 +670,7 @@ pub fn c18(ctx: &Ctx) -> (CheckMeta, Outcome) {
     let meta = CheckMeta {
         property: "C18".into(),
         level: "exploration".into(),
-        rule: "(1) every value below 2^21, every length-step boundary +-2 up to 10 bytes, 2^64-1 and seeded values: vbyte_write_be/le and the generic vbyte_write::<E> vs the reference (offset definition of the complete code), returned length, byte_len_vbyte/bit_len_vbyte, vbyte_read_* inversion and bytes consumed; (2) bit-stream write_vbyte_be/le at byte-aligned positions (0, 1, 3 leading bytes) for both stream endiannesses and every writer word 8..128 vs the io functions, read back with the bit-stream trait; (3) completeness: ALL 2 113 664 terminated byte strings of length <= 3 and all 268 435 456 of length 4 (thorough: also all 2^35 of length 5) (both variants) and 200 000 seeded longer ones decode to a value whose encoding is the same string (hence distinct strings <-> distinct values); non-trivial = multi-byte".into(),
+        rule: "(1) every value below 2^21, every length-step boundary +-2 up to 10 bytes, 2^64-1 and seeded values: vbyte_write_be/le and the generic vbyte_write::<E> vs the reference (offset definition of the complete code), returned length, byte_len_vbyte/bit_len_vbyte, vbyte_read_* inversion and bytes consumed, also into a sink that accepts 3 bytes per call and from a source that yields one byte per call; (2) bit-stream write_vbyte_be/le at byte-aligned positions (0, 1, 3 leading bytes) for both stream endiannesses and every writer word 8..128 vs the io functions, read back with the bit-stream trait; bit-stream codes ending with the last byte of a strict stream (every reader kind); (3) completeness: ALL 2 113 664 terminated byte strings of length <= 3 and all 268 435 456 of length 4 (thorough: also all 2^35 of length 5) (both variants) and 200 000 seeded longer ones decode to a value whose encoding is the same string (hence distinct strings <-> distinct values); non-trivial = multi-byte".into(),
         assumptions: vec![],
     };
     (meta, out)
